@@ -1,4 +1,4 @@
-package c01
+package vlib
 
 import (
 	"context"
@@ -11,7 +11,6 @@ import (
 	"github.com/sdcio/cache/proto/cachepb"
 	"github.com/sdcio/data-server/pkg/config"
 	"github.com/sdcio/data-server/pkg/datastore"
-	"verif/harness/vlib"
 )
 
 // closed loop: the datastore talks to an in-process gNMI device through the REAL gnmiTarget in both directions -
@@ -24,24 +23,26 @@ import (
 //   (2) the running store equals what the gNMI device holds (what it can report in the encoding),
 // and at the end (3) re-submitting every live intent verbatim changes nothing on either device.
 
-type loop struct {
+type GNMILoop struct {
+	// Pfx: signature prefix of the check that runs the loop (C01, C09)
+	Pfx    string
 	name   string
 	enc    gnmi.Encoding
-	tee    *vlib.GNMITee
+	tee    *GNMITee
 	mu     sync.Mutex
 	done   int
 	cancel context.CancelFunc
 }
 
-func loopSyncConfig(enc string) *config.Sync {
+func GNMILoopSyncConfig(enc string) *config.Sync {
 	return &config.Sync{Validate: false, Buffer: 1000, WriteWorkers: 1, Config: []*config.SyncProtocol{
 		{Name: "cfg", Protocol: "gnmi", Mode: "on-change", Encoding: enc, Paths: []string{"/plain"}, Interval: 100 * time.Millisecond},
 		{Name: "ty", Protocol: "gnmi", Mode: "on-change", Encoding: enc, Paths: []string{"/types"}, Interval: 100 * time.Millisecond},
 	}}
 }
 
-func startLoop(h *vlib.HistEnv, tee *vlib.GNMITee, enc string) (*loop, *vlib.Failure) {
-	l := &loop{name: h.DSName, tee: tee}
+func StartGNMILoop(h *HistEnv, tee *GNMITee, enc string) (*GNMILoop, *Failure) {
+	l := &GNMILoop{Pfx: "C01", name: h.DSName, tee: tee}
 	l.enc = gnmi.Encoding(gnmi.Encoding_value[map[string]string{"json": "JSON", "json_ietf": "JSON_IETF", "proto": "PROTO"}[enc]])
 	datastore.VerifSyncMsgDone = func(n string) {
 		if n == l.name {
@@ -59,19 +60,19 @@ func startLoop(h *vlib.HistEnv, tee *vlib.GNMITee, enc string) (*loop, *vlib.Fai
 	return l, l.quiescent("initial sync")
 }
 
-func (l *loop) stop() {
+func (l *GNMILoop) Stop() {
 	l.cancel()
 	datastore.VerifSyncMsgDone = nil
 }
 
-func (l *loop) getDone() int { l.mu.Lock(); defer l.mu.Unlock(); return l.done }
+func (l *GNMILoop) getDone() int { l.mu.Lock(); defer l.mu.Unlock(); return l.done }
 
-func (l *loop) wait(what string, cond func() bool) *vlib.Failure {
+func (l *GNMILoop) wait(what string, cond func() bool) *Failure {
 	dl := time.Now().Add(20 * time.Second)
 	for !cond() {
 		if time.Now().After(dl) {
 			_, _, q, s := l.tee.GDev.Counters()
-			return vlib.Failf("C01:loop:sync-stalled", "%s: %d notifications queued, %d sent, %d stored, %d subscribers", what, q, s, l.getDone(), l.tee.GDev.Subscribers())
+			return Failf(l.Pfx+":loop:sync-stalled", "%s: %d notifications queued, %d sent, %d stored, %d subscribers", what, q, s, l.getDone(), l.tee.GDev.Subscribers())
 		}
 		time.Sleep(200 * time.Microsecond)
 	}
@@ -79,33 +80,33 @@ func (l *loop) wait(what string, cond func() bool) *vlib.Failure {
 }
 
 // quiescent: everything the device reported so far is stored
-func (l *loop) quiescent(what string) *vlib.Failure {
+func (l *GNMILoop) quiescent(what string) *Failure {
 	return l.wait(what, func() bool { _, _, q, s := l.tee.GDev.Counters(); return s == q && l.getDone() >= s })
 }
 
 // checkStore: the running store equals what the gNMI device holds
-func (l *loop) checkStore(h *vlib.HistEnv, where string) *vlib.Failure {
+func (l *GNMILoop) CheckStore(h *HistEnv, where string) *Failure {
 	if f := l.quiescent(where); f != nil {
 		return f
 	}
-	dump, err := vlib.DumpFlat(context.Background(), h.Env.Cache, h.DSName, cachepb.Store_CONFIG)
+	dump, err := DumpFlat(context.Background(), h.Env.Cache, h.DSName, cachepb.Store_CONFIG)
 	if err != nil {
-		return vlib.Failf("C01:loop:dump", "%v", err)
+		return Failf(l.Pfx+":loop:dump", "%v", err)
 	}
-	got := vlib.Conf{}
+	got := Conf{}
 	for _, e := range dump {
 		if e.Raw != "" {
-			return vlib.Failf("C01:loop:undecodable-stored-value", "%s: the running store holds %s = %s", where, e.Canon, e.Raw)
+			return Failf(l.Pfx+":loop:undecodable-stored-value", "%s: the running store holds %s = %s", where, e.Canon, e.Raw)
 		}
 		got[e.Canon] = e.Den
 	}
 	want := l.tee.GDev.Snapshot()
 	// presence containers and values the encoding cannot carry are bookkeeping of whoever wrote last (Set or sync)
-	drop := func(c vlib.Conf) {
+	drop := func(c Conf) {
 		for k, v := range c {
-			p := vlib.MustCanon(k)
+			p := MustCanon(k)
 			n := p.Node()
-			if n == nil || n.Kind == vlib.KContainer || n.Type == "empty" || (!p.IsKeyLeaf() && !vlib.GNMIRepresentable(p, v, l.enc)) {
+			if n == nil || n.Kind == KContainer || n.Type == "empty" || (!p.IsKeyLeaf() && !GNMIRepresentable(p, v, l.enc)) {
 				delete(c, k)
 			}
 		}
@@ -113,15 +114,15 @@ func (l *loop) checkStore(h *vlib.HistEnv, where string) *vlib.Failure {
 	drop(got)
 	drop(want)
 	// key leaves: only those of entries that hold something else
-	for _, c := range []vlib.Conf{got, want} {
+	for _, c := range []Conf{got, want} {
 		for k := range c {
-			p := vlib.MustCanon(k)
+			p := MustCanon(k)
 			if !p.IsKeyLeaf() {
 				continue
 			}
 			entry, other := p[:len(p)-1], false
 			for o := range c {
-				q := vlib.MustCanon(o)
+				q := MustCanon(o)
 				if !q.IsKeyLeaf() && entry.IsStrictAncestorOf(q) {
 					other = true
 					break
@@ -133,7 +134,7 @@ func (l *loop) checkStore(h *vlib.HistEnv, where string) *vlib.Failure {
 		}
 	}
 	if d := got.Diff(want); len(d) > 0 {
-		sig := "C01:loop:running-differs-from-device"
+		sig := l.Pfx + ":loop:running-differs-from-device"
 		switch {
 		case strings.Contains(d[0], "vs <absent>"):
 			sig += ":extra-path"
@@ -142,13 +143,13 @@ func (l *loop) checkStore(h *vlib.HistEnv, where string) *vlib.Failure {
 		default:
 			sig += ":wrong-value"
 		}
-		return vlib.Failf(sig, "%s: closed loop over the real gnmiTarget (%s): the running store differs from the device (store vs device):\n  %s\nstore: %s\ndevice: %s", where, l.enc, strings.Join(d, "\n  "), vlib.JSON(got), vlib.JSON(want))
+		return Failf(sig, "%s: closed loop over the real gnmiTarget (%s): the running store differs from the device (store vs device):\n  %s\nstore: %s\ndevice: %s", where, l.enc, strings.Join(d, "\n  "), JSON(got), JSON(want))
 	}
 	return nil
 }
 
 // reapply: every live intent re-submitted verbatim in one transaction changes nothing
-func (l *loop) reapply(h *vlib.HistEnv, where string) *vlib.Failure {
+func (l *GNMILoop) Reapply(h *HistEnv, pfx, where string) *Failure {
 	var names []string
 	for n := range h.Model.Intents {
 		names = append(names, n)
@@ -157,23 +158,28 @@ func (l *loop) reapply(h *vlib.HistEnv, where string) *vlib.Failure {
 		return nil
 	}
 	// only judged when the device holds the merge (otherwise a correction is legitimate; C01 reports that)
-	if vlib.CheckConvergenceConf(h.Model, h.Dev.Snapshot(), where) != nil {
+	if CheckConvergenceConf(h.Model, h.Dev.Snapshot(), where) != nil {
 		return nil
 	}
 	before, gBefore := h.Dev.Snapshot(), l.tee.GDev.Snapshot()
 	calls := h.Dev.Calls()
 	rsp, err := h.ReapplyAll("loop-reapply")
 	if err != nil {
-		return vlib.Failf("C01:loop:reapply-refused", "%s: re-submitting the live intents verbatim was refused: %v", where, err)
+		return Failf(pfx+":loop:reapply-refused", "%s: re-submitting the live intents verbatim was refused: %v", where, err)
 	}
 	_ = rsp
+	if h.Dev.Calls() > calls {
+		if rec := h.Dev.LastRecord(); rec != nil && len(rec.Updates)+len(rec.Deletes) > 0 {
+			return Failf(pfx+":loop:reapply-sends-change", "%s: re-submitting the live intents verbatim sent a change to the device (the running store is what the real sync made of the device's reports): %s\ndevice before: %s", where, JSON(rec), JSON(before))
+		}
+	}
 	if d := h.Dev.Snapshot().Diff(before); len(d) > 0 {
-		return vlib.Failf("C01:loop:reapply-changes-device", "%s: re-submitting the live intents verbatim changed the device (after vs before):\n  %s\n%d device calls, last: %s", where, strings.Join(d, "\n  "), h.Dev.Calls()-calls, vlib.JSON(h.Dev.LastRecord()))
+		return Failf(pfx+":loop:reapply-changes-device", "%s: re-submitting the live intents verbatim changed the device (after vs before):\n  %s\n%d device calls, last: %s", where, strings.Join(d, "\n  "), h.Dev.Calls()-calls, JSON(h.Dev.LastRecord()))
 	}
 	if d := l.tee.GDev.Snapshot().Diff(gBefore); len(d) > 0 {
-		return vlib.Failf("C01:loop:reapply-changes-device", "%s: re-submitting the live intents verbatim changed the gNMI device (after vs before):\n  %s", where, strings.Join(d, "\n  "))
+		return Failf(pfx+":loop:reapply-changes-device", "%s: re-submitting the live intents verbatim changed the gNMI device (after vs before):\n  %s", where, strings.Join(d, "\n  "))
 	}
-	return l.checkStore(h, where+" after the re-application")
+	return l.CheckStore(h, where+" after the re-application")
 }
 
 var _ = fmt.Sprintf
